@@ -61,6 +61,7 @@ func (tm *tMap) markFieldFiltered(fieldName string) {
 // trackedMaps defines a type for tracking maps while processing event.
 type trackedMaps struct {
 	tracked map[uintptr]*tMap // a map of all tracked maps using each map's addr as the index
+	parent  *trackedMaps      // the tracked maps this set was derived from (while filtering nested maps)
 	l       sync.RWMutex
 }
 
@@ -124,8 +125,12 @@ func (maps *trackedMaps) trackMap(tm *tMap) error {
 // isn't being tracked.
 func (maps *trackedMaps) getTracked(ptr uintptr) (*tMap, bool) {
 	maps.l.RLock()
-	defer maps.l.RUnlock()
 	tm, ok := maps.tracked[ptr]
+	parent := maps.parent
+	maps.l.RUnlock()
+	if !ok && parent != nil {
+		return parent.getTracked(ptr)
+	}
 	return tm, ok
 }
 
@@ -315,6 +320,7 @@ func (maps *trackedMaps) processUnfiltered(ctx context.Context, ef *Filter, filt
 				if err != nil {
 					return fmt.Errorf("%s: unable to filter map: %w", op, err)
 				}
+				newMaps.parent = maps
 				if err := newMaps.processUnfiltered(ctx, ef, filterOverrides, opt...); err != nil {
 					return fmt.Errorf("%s: unable to process maps found in map: %w", op, err)
 				}
